@@ -263,6 +263,9 @@ func (o sop) String() string {
 	case "brb":
 		return fmt.Sprintf("B.Rollback(%d)", o.k)
 	case "frb":
+		if o.k < 0 {
+			return "F.RollbackLastBlock(at genesis)"
+		}
 		return "F.RollbackLastBlock"
 	case "rbboth":
 		return "F.RollbackLastBlock+B.Rollback(1)"
@@ -298,6 +301,10 @@ func menu(m *lmodel, maxLen int, crashMode bool) []sop {
 		}
 	}
 	ops = append(ops, sop{kind: "brb", k: int(m.btip()) + 1}) // past genesis: must fail
+	if m.ftip() == 0 {
+		// one rollback more than there were appends: must fail and change nothing
+		ops = append(ops, sop{kind: "frb", k: -1})
+	}
 	if m.ftip() >= 1 {
 		ops = append(ops, sop{kind: "frb"})
 		if m.ftip() == m.btip() {
@@ -351,6 +358,14 @@ func runOp(env *verifhfs.Env, s **stores, m *lmodel, o sop, pool *[]wire.BlockHe
 			}
 		}
 	case "frb":
+		if o.k < 0 {
+			newTip := next.blocks[0].BlockHash()
+			_, err = (*s).f.RollbackLastBlock(&newTip)
+			if err == nil {
+				next = nil // flagged by caller: must have failed
+			}
+			break
+		}
 		next.filters = next.filters[:len(next.filters)-1]
 		newTip := next.blocks[next.ftip()].BlockHash()
 		var st *headerfs.BlockStamp
@@ -455,7 +470,7 @@ func storeBody(depth, maxLen int, faults, crashes bool) func(c *verifeng.Chooser
 				c.Fail("result", o.kind+":should-fail", "%v succeeded but must fail (tip %d)", o, m.btip())
 				return
 			}
-			if err != nil && !faulted && !(o.kind == "brb" && uint32(o.k) > m.btip()) {
+			if err != nil && !faulted && !(o.kind == "brb" && uint32(o.k) > m.btip()) && !(o.kind == "frb" && o.k < 0) {
 				c.Fail("result", o.kind+":unexpected-error", "%v failed without any injected fault: %v (state %v)", o, err, m)
 				return
 			}
@@ -475,7 +490,7 @@ func storeBody(depth, maxLen int, faults, crashes bool) func(c *verifeng.Chooser
 			if err == nil {
 				exp = next
 			}
-			if err != nil && (o.kind == "brb" || o.kind == "frb" || o.kind == "rbboth") && faulted {
+			if err != nil && (o.kind == "brb" || o.kind == "frb" || o.kind == "rbboth") && faulted && !(o.kind == "frb" && o.k < 0) {
 				// A rollback that reports an I/O failure may stop half
 				// way (the statement only covers failed appends): what
 				// must hold is that a restart recovers a before/after
@@ -521,7 +536,9 @@ func intended(m *lmodel, o sop) *lmodel {
 			next.branch = next.branch[:len(next.branch)-o.k]
 		}
 	case "frb":
-		next.filters = next.filters[:len(next.filters)-1]
+		if o.k >= 0 {
+			next.filters = next.filters[:len(next.filters)-1]
+		}
 	case "rbboth":
 		next.filters = next.filters[:len(next.filters)-1]
 		next.blocks = next.blocks[:len(next.blocks)-1]
